@@ -827,6 +827,7 @@ def _sbml_to_model(
 
         # set bounds
         p_ub, p_lb = None, None
+        lower_bound, upper_bound = None, None
         r_fbc: "libsbml.FbcReactionPlugin" = reaction.getPlugin("fbc")
         if r_fbc:
             # bounds in fbc
@@ -834,7 +835,7 @@ def _sbml_to_model(
             if lb_id:
                 p_lb: "libsbml.Parameter" = model.getParameter(lb_id)
                 if p_lb and p_lb.getConstant() and (p_lb.getValue() is not None):
-                    cobra_reaction.lower_bound = p_lb.getValue()
+                    lower_bound = p_lb.getValue()
                 else:
                     raise CobraSBMLError(
                         f"No constant bound '{p_lb}' for reaction: {reaction}"
@@ -844,7 +845,7 @@ def _sbml_to_model(
             if ub_id:
                 p_ub: "libsbml.Parameter" = model.getParameter(ub_id)
                 if p_ub and p_ub.getConstant() and (p_ub.getValue() is not None):
-                    cobra_reaction.upper_bound = p_ub.getValue()
+                    upper_bound = p_ub.getValue()
                 else:
                     raise CobraSBMLError(
                         f"No constant bound '{p_ub}' for reaction: {reaction}"
@@ -857,12 +858,12 @@ def _sbml_to_model(
                 "LOWER_BOUND"
             )  # noqa: E501 type: libsbml.LocalParameter
             if p_lb:
-                cobra_reaction.lower_bound = p_lb.getValue()
+                lower_bound = p_lb.getValue()
             p_ub = klaw.getParameter(
                 "UPPER_BOUND"
             )  # noqa: E501 type: libsbml.LocalParameter
             if p_ub:
-                cobra_reaction.upper_bound = p_ub.getValue()
+                upper_bound = p_ub.getValue()
 
             if p_ub is not None or p_lb is not None:
                 LOGGER.warning(
@@ -874,7 +875,6 @@ def _sbml_to_model(
         if p_lb is None:
             missing_bounds = True
             lower_bound = config.lower_bound
-            cobra_reaction.lower_bound = lower_bound
             LOGGER.warning(
                 f"Missing lower flux bound set to '{lower_bound}' for "
                 f"reaction: '{reaction}'"
@@ -883,11 +883,13 @@ def _sbml_to_model(
         if p_ub is None:
             missing_bounds = True
             upper_bound = config.upper_bound
-            cobra_reaction.upper_bound = upper_bound
             LOGGER.warning(
                 f"Missing upper flux bound set to '{upper_bound}' for "
                 f"reaction: '{reaction}'"
             )
+
+        # both bounds at once: either may lie beyond the default of the other
+        cobra_reaction.bounds = lower_bound, upper_bound
 
         # add reaction
         reactions.append(cobra_reaction)
